@@ -221,6 +221,11 @@ def generate(rng: random.Random, cfg: dict | None = None) -> dict:
             stmts.append({"kind": "cdecay", "lines": [L(["CDecay", cc])]})
         else:
             cc = fresh_label(rng, used, "Anti")
+            if rng.random() < 0.25 and t["conj_names"]:
+                # a plain particle declared to be the conjugate of something else in this file
+                cand = rng.choice(t["conj_names"])
+                if cand not in mothers and cand not in cdecay_names and cand not in [c[0] for c in copies] and cand != src:
+                    cc = cand
             if rng.random() < 0.5:
                 stmts.append({"kind": "chargeconj", "lines": [L(["ChargeConj", src, cc])]})
             else:
